@@ -25,7 +25,7 @@ LEVEL_TEXT = ("Doctests from the C01 program generator (bare docstrings in freef
               "the displayed lines must be exactly the generator's source and want lines in order, the re-parsed text must "
               "give the same executable lines, wants and compile modes, and every number must equal the by-construction "
               "position. Randomised exploration with shrinking.")
-LEVEL_ADDED = ("The doctest's own offset_linenos setting is drawn (unset / True / False) and numbering is requested as False, True and None (the setting only speaks for None); wants indented as a whole relative to their prompt are generated.")
+LEVEL_ADDED = ("The doctest's own offset_linenos setting is drawn (unset / True / False) and numbering is requested as False, True and None (the setting only speaks for None); wants indented as a whole relative to their prompt are generated. Google blocks use the tags Example: / Example:: / Examples:: / Doctest:, with or without an empty line under the tag; the summary line may hold characters only str.splitlines() takes for line ends.")
 LEVEL_NOTE = ("Trusted: the generator's per-line bookkeeping. Want-less parts separated only by prose legitimately merge on "
               "re-parse, so parts are compared as a canonical sequence (executable lines since the previous want, want, "
               "mode), not by part boundaries; colours are not exercised.")
